@@ -265,6 +265,11 @@ def descriptions():
 # ------------------------------------------------------------------------------------------------ evaluation
 
 def evaluate(rep, repo, vmod):
+    from kvstatic.core import cached_rules
+    return cached_rules(rep, repo, 'c11.netlist', ['verilog'], lambda r: _evaluate(r, repo, vmod))
+
+
+def _evaluate(rep, repo, vmod):
     cls = vmod.cls('VerilogTransformer')
     tree = vmod.tree
     rep.rule('C11.netlist', 'the Verilog transformer evaluated on a family of module descriptions (buses both ways, header order, declaration order, constants, '
